@@ -27,6 +27,9 @@ class SchedAdapter:
             clock_at = datetime.datetime.fromisoformat(clock_at)
         self.max_timers = max_timers
         self.w = PipeWorld(desc, targets, mode=mode, clock_at=clock_at)
+        # run ids grow with every run started only where the run-id oracle (C11)
+        # needs it: with feedback loops they would make the state space infinite
+        self.w.monotone_next = 'C11' in props
         self.eng = self.w.eng
         self.props = set(props)
         self.reqs = reqs
@@ -145,7 +148,10 @@ class SchedAdapter:
         return {'removed': ()}
 
     def canon(self, s):
-        return (PipeWorld.canon(s), s['reqs'], self.mon_canon(s['mon']))
+        # the run-id counter only matters to the run-id oracle of C11 (with
+        # feedback loops it grows without bound)
+        extra = s.get('nexts', 0) if 'C11' in self.props else 0
+        return (PipeWorld.canon(s), s['reqs'], self.mon_canon(s['mon']), extra)
 
     def mon_canon(self, m):
         return tuple(sorted(m.items()))
@@ -286,6 +292,22 @@ class SchedAdapter:
             for t in set(after[tag][1]) - set(before[tag][1]):
                 removed.pop((tag, t), None)
         mon['removed'] = tuple(sorted(removed.items()))
+        # provenance: a unit released again while a copy of it is still in
+        # flight, and why the scheduler did not see the first copy
+        dup = dict(mon.get('dup', ()))
+        prev_removed = dict(s['mon'].get('removed', ()))
+        flying_before = {(j, t) for j, t, _r, _u in s['inflight']} | {
+            (m.jobid, m.target or '__all__') for m in s['cluster']}
+        for e in self.log:
+            if e[0] == 'put' and (e[1], e[2]) in flying_before:
+                dup[(e[1], e[2])] = prev_removed.get((e[1], e[2]), 'node-knows')
+        flying_now = {(j, t) for j, t, _r, _u in self.w.inflight} | {
+            (m.jobid, m.target or '__all__') for m in farm._cluster}
+        for k in list(dup):
+            if k not in flying_now:
+                del dup[k]
+        mon['dup'] = tuple(sorted(dup.items()))
+        self.dup = dup
         # provenance: who last removed a node from the work queue
         deq = dict(mon.get('dequeued', ()))
         qb, qa = set(s['que']), set(ns['que'])
@@ -380,7 +402,15 @@ class SchedAdapter:
                            f'{tag}[{t}] released while upstream {up} is '
                            f'executing {sorted(bad_d)}')
                 elif bad_t:
-                    why = sorted({removed.get((up, x), 'never-in-doing') for x in bad_t})
+                    why = set()
+                    for x in bad_t:
+                        by = removed.get((up, x), 'never-in-doing')
+                        if by == 'complete' and (up, x) in self.dup:
+                            # the reply of one copy cleared `doing` while a
+                            # second copy (released because of <cause>) still runs
+                            by = f'complete-of-a-duplicate-released-after-{self.dup[(up, x)]}'
+                        why.add(by)
+                    why = sorted(why)
                     report('C01/upstream-in-flight-but-absent-from-doing/'
                            f'last-removed-by={"+".join(why)}',
                            f'{tag}[{t}] released while upstream {up}{sorted(bad_t)} '
@@ -577,7 +607,7 @@ class SchedAdapter:
                             want_next += 1
                         for t in do:
                             got = puts.get((tag, t if kind != 'analysis' else '__all__'), [None])[0]
-                            fresh = w.store_next + s.get('nexts', 0) + want_next - 1
+                            fresh = w.store_next + (s.get('nexts', 0) + want_next - 1 if w.monotone_next else 0)
                             exp = 0 if kind == 'regress' else (carried if carried is not None else fresh)
                             if got != exp:
                                 report('C11/run-id/' + ('reused-instead-of-fresh' if carried is None else 'not-the-carried-id'),
@@ -595,6 +625,11 @@ class SchedAdapter:
             if bad and not (ev[0] == 'reg'):
                 report('C11/traffic-while-inactive/' + bad[0][0], f'event {ev} while inactive wrote {bad[0][:3]}')
         if ev[0] == 'life' and ev[1] == 'reload':
+            waiting = [o[1] for o in w.obs if o[0] == 'reload-workers']
+            told = len([o for o in w.obs if o[0] == 'abort'])
+            if waiting and told != waiting[0]:
+                report('C11/waiting-worker-not-told-to-leave',
+                       f'{waiting[0]} workers were waiting when the pipeline went down, {told} were told to leave')
             kept = [o for o in w.obs if o[0] in ('wait', 'task')]
             if kept or farm._workers:
                 report('C11/workers-survive-reload', f'after reload: {len(farm._workers)} workers still registered, wrote {kept[:2]}')
